@@ -36,6 +36,8 @@ def showSchedEv : Ev → String
   | .awaitTask c id => s!"await_task {c} {id}"
   | .resumeTask c id => s!"resume_task {c} {id}"
   | .yieldStmt c => s!"yield_stmt {c}"
+  | .skip id w => s!"skip {id} waiting {w}"
+  | .giveUp t => s!"giveup {t}"
   | .out c t => s!"out {c} {t}"
   | .got c v => s!"got {c} {v}"
 
@@ -74,7 +76,8 @@ def progressB (p : Prog) (c : Cfg) : Bool :=
     outsOf (i + 1) c.trace == progressMarks (body p t) t.idx t.iter
 
 def fifoB (c c' : Cfg) : Bool :=
-  (c'.queue.take c.queue.length == c.queue) || (c.queue.drop 1 == c'.queue && !c.queue.isEmpty)
+  (c'.queue.take c.queue.length == c.queue) || (c.queue.drop 1 == c'.queue && !c.queue.isEmpty) ||
+  (!c.queue.isEmpty && c'.queue == c.queue.drop 1 ++ c.queue.take 1)
 
 def frozenB (c c' : Cfg) : Bool :=
   (List.range c.tasks.length).all fun i =>
